@@ -90,5 +90,8 @@ Menu == { MapDecl("1", b0, b0 + len - 1, lo, lo + mask - 1, mask, FALSE, m0, IF 
             b0 \in {0, 16, 64}, len \in {1, 2, 48}, lo \in {0, 32768}, mask \in {32768, 65536}, m0 \in {NoMirror, 128, 192} }
 GenBuses == { << m, MapDecl("2", 126, 127, 0, 65535, 65536, TRUE, NoMirror, NoMirror) >> :
               m \in {d \in Menu : WellFormedDecl(d) /\ d.b1 < 126 } }
+            \* a later declaration carving RAM out of an earlier, wider ROM range (as the built-in HiROM bus does)
+            \cup { << MapDecl("1", 64, 127, 0, 65535, 65536, FALSE, 192, 255), MapDecl("2", 126, 127, 0, 65535, 65536, TRUE, NoMirror, NoMirror) >>,
+                   << MapDecl("1", 0, 63, 32768, 65535, 32768, FALSE, 128, 191), MapDecl("2", 32, 33, 0, 65535, 65536, TRUE, NoMirror, NoMirror) >> }
 
 =============================================================================
